@@ -23,7 +23,16 @@ class Facts:
         self.features = d["features"]
         self.bodies = {}
         self.by_path = defaultdict(list)
-        for b in d["bodies"]:
+        self.raw_bodies = {b["key"]: b for b in d["bodies"]}
+        import os as _os
+        if _os.environ.get("VERIF_NO_INLINE") == "1":
+            body_dicts = d["bodies"]
+        else:
+            import inline as _inline
+            inl = _inline.inline_all(self)
+            body_dicts = [inl[b["key"]] for b in d["bodies"]]
+        self.n_inlined_sites = sum(len(b.get("inlined", [])) for b in body_dicts)
+        for b in body_dicts:
             body = Body(b, self)
             self.bodies[body.key] = body
             self.by_path[body.path].append(body)
@@ -545,7 +554,7 @@ READ = {
     ("ReadSliceInner", "get"), ("ReadColumns", "iter"), ("ReadColumns", "get"),
     ("ReadColumnsInner", "get"), ("HuffmanContainer", "print"), ("Borrow", "borrow"),
     ("ToOwned", "to_owned"), ("slice", "to_vec"), ("AsRef", "as_ref"), ("Option", "as_ref"),
-    ("Result", "as_ref"), ("FlatStack", "get"), ("FlatStack", "iter"), ("Iterator", "eq"),
+    ("Result", "as_ref"), ("Iterator", "eq"),
     ("Iterator", "cmp"), ("Iterator", "partial_cmp"), ("Iterator", "any"), ("Iterator", "all"),
     ("Iterator", "fold"), ("Debug", "fmt"), ("Display", "fmt"), ("Wrapped", "encoded"),
     ("Wrapped", "decoded"), ("Decode", "any_void"), ("Serialize", "serialize"),
@@ -559,7 +568,7 @@ APPEND = {
     ("BTreeMap", "entry"), ("Entry", "or_insert"), ("Entry", "or_default"),
     ("Entry", "or_insert_with"), ("Stride", "push"), ("IndexList", "push"),
     ("BytesMap", "push"), ("MisraGries", "insert"), ("MisraGries", "update"),
-    ("FlatStack", "copy"), ("BinaryHeap", "push"), ("String", "push_str"), ("String", "push"),
+    ("BinaryHeap", "push"), ("String", "push_str"), ("String", "push"),
 }
 RESERVE = {
     ("Vec", "reserve"), ("Storage", "reserve"), ("Storage", "reserve_regions"),
@@ -618,7 +627,7 @@ SUBPART_IDENT = {
     ("BTreeMap", "values"), ("BTreeMap", "iter_mut"), ("BTreeMap", "values_mut"),
     ("Entry", "or_insert"), ("Entry", "or_default"), ("Clone", "clone"),
     ("Try", "branch"), ("Option", "ok_or"), ("Result", "ok"), ("Result", "err"),
-    ("ReadColumns", "iter"), ("ReadSlice", "iter"), ("FlatStack", "iter"),
+    ("ReadColumns", "iter"), ("ReadSlice", "iter"),
 }
 SUBPART_ELEM = {
     ("Iterator", "next"), ("Index", "index"), ("IndexMut", "index_mut"), ("slice", "get"),
@@ -786,6 +795,32 @@ def _base(ctx, origin, out, depth, seen):
                     return
             elif not p:
                 out.add((ctx, origin))
+                return
+        if tag == ("Iterator", "map") and len(args) == 2 and path[:1] == ("[]",) and depth < 30:
+            # an element of map(X, f) is what f returns for an element of X
+            done = False
+            for (r2, p2) in ctx.org.operand(args[1]):
+                if r2[0] == "agg" and p2 == ():
+                    rv = ctx.org.stmt(r2[1], r2[2])["rv"]
+                    if rv.get("agg") == "closure":
+                        cb = ctx.body.facts.body(rv["closure"])
+                        if cb is not None:
+                            upv = {}
+                            for k_, op in enumerate(rv["ops"]):
+                                s_ = set()
+                                for o in ctx.org.operand(op):
+                                    s_ |= base_places(ctx, o)
+                                upv[k_] = s_
+                            recv = set()
+                            for o in ctx.org.operand(args[0]):
+                                for (c_, (r3, p3)) in base_places(ctx, o):
+                                    recv.add((c_, (r3, p3 + ("[]",))))
+                            cctx = Ctx(cb, parent=ctx, upvars=upv, params={2: recv}, site_bb=root[1])
+                            for (r4, p4) in cctx.org.local(0):
+                                for o2 in cctx.org.extend(r4, p4 + tuple(path[1:])):
+                                    _base(cctx, o2, out, depth + 1, seen)
+                            done = True
+            if done:
                 return
         if tag == ("Iterator", "enumerate") and args:
             p = strip_option(path)
@@ -985,6 +1020,44 @@ def body_effects(facts, ctx, depth=0, _stack=()):
     return out
 
 
+# (callee tag, argument position of the closure) -> payload of the receiver bound to the
+# closure's first parameter
+PAYLOAD_PARAM = {
+    (("Result", "map_or_else"), 1): ("v:Err", "f:0"), (("Result", "map_or_else"), 2): ("v:Ok", "f:0"),
+    (("Option", "map_or_else"), 2): ("v:Some", "f:0"), (("Option", "map_or"), 2): ("v:Some", "f:0"),
+    (("Result", "map_or"), 2): ("v:Ok", "f:0"), (("Result", "unwrap_or_else"), 1): ("v:Err", "f:0"),
+    (("Result", "or_else"), 1): ("v:Err", "f:0"), (("Option", "is_some_and"), 1): ("v:Some", "f:0"),
+}
+
+
+def closure_ctxs(facts, ctx):
+    """[(closure ctx, creation bb, consuming call bb or None)] for closures created in ctx.body,
+    with upvars and (where the consuming callee is known) parameters bound to parent-level places"""
+    out = []
+    org = ctx.org
+    bindings = closure_bindings(ctx)
+    consumers = {}
+    sites = {("agg", bi, si): (bi, si) for (bi, si, ck, ops) in closure_sites(ctx.body)}
+    for (bi, t) in ctx.body.calls():
+        for a in t["args"]:
+            for (r, p) in org.operand(a):
+                if r in sites and p == ():
+                    consumers.setdefault(sites[r], []).append(bi)
+    for (bi, si, ckey, ops) in closure_sites(ctx.body):
+        cbody = facts.body(ckey)
+        if cbody is None:
+            continue
+        upv = {}
+        for k, op in enumerate(ops):
+            s = set()
+            for o in org.operand(op):
+                s |= base_places(ctx, o)
+            upv[k] = s
+        cctx = Ctx(cbody, parent=ctx, upvars=upv, params=bindings.get((bi, si), {}), site_bb=bi)
+        out.append((cctx, bi, consumers.get((bi, si), [])))
+    return out
+
+
 def closure_bindings(ctx):
     """(bb, si) of closure aggregate -> {param index -> set of (ctx, origin)} for closures passed
     to adaptor calls in this body"""
@@ -1022,6 +1095,11 @@ def closure_bindings(ctx):
                                 recv.add((c_, (r2, p2 + elem)))
                         # look through element-producing adaptor chains: the element of
                         # map(zip(a,b)) etc. is resolved lazily by _base on ('call', zip)
+                        res.setdefault(sites[r], {})[2] = recv
+                    elif (tag, k) in PAYLOAD_PARAM:
+                        for o in org.operand(args[0]):
+                            for (c_, (r2, p2)) in base_places(ctx, o):
+                                recv.add((c_, (r2, p2 + PAYLOAD_PARAM[(tag, k)])))
                         res.setdefault(sites[r], {})[2] = recv
                     elif tag in (("Iterator", "fold"),) and k == 2:
                         for o in org.operand(args[0]):
